@@ -7,6 +7,8 @@ d=/verif/seeded/$name
 git -C /repo apply "$d/patch.diff" || { echo "patch does not apply"; exit 3; }
 out=$(cd /verif && ./run.sh "$id" "$tier" 2>&1); rc=$?
 git -C /repo checkout -- .
+# rebuild the harness against the restored tree so that no stale binary is left behind
+( cd /verif/harness && cargo build --release --offline >/dev/null 2>&1 )
 echo "$out" | grep -E "^VIOLATION|^FAIL|INCONCLUSIVE|BROKEN|BUILD FAILED" | cut -c1-400 | head -5
 res="missed"; [ $rc -eq 1 ] && res="caught"; [ $rc -ge 2 ] && res="inconclusive(rc=$rc)"
 echo "TRIAL $name vs $id $tier: $res"
